@@ -108,6 +108,22 @@ def BOUNDED(tier, seed):
                 if not ok:
                     fails.append({'key': f'efficiency_{mode}', 'summary': f'BatchSage.{mode} N={N} n_inner={n_inner}: values {out} sum {sum(out.values())} '
                                   f'!= mean loss gap {target} (or per-feature averages differ)'})
+    # explain_many on data that is NOT what the storage holds: the baseline is the mean prediction over the EXPLAINED data
+    st = BatchStorage(store_targets=True)
+    for k_ in range(3):
+        st.update({'a': Fraction(10 + k_), 'b': Fraction(-7), 'c': Fraction(3 * k_)}, k_)
+    ex = BatchSage(_model, names, _loss, n_inner_samples=1, storage=st, imputer=MarginalImputer(_model, 'joint', st))
+    xs = [{k: Fraction(rng.randint(-3, 3)) for k in names} for _ in range(3)]
+    ys = [rng.randint(-2, 2) for _ in range(3)]
+    evals += 1
+    distinct.add(('many', 'other_data_than_storage'))
+    out = ex.explain_many(xs, ys, verbose=False)
+    preds = [_model(x) for x in xs]
+    mp = {'output': sum(p['output'] for p in preds) / len(xs)}
+    target = sum(_loss(y, mp) - _loss(y, p) for y, p in zip(ys, preds)) / len(xs)
+    if not _close(sum(out.values()), target):
+        fails.append({'key': 'efficiency_many', 'summary': f'BatchSage.explain_many on data other than the storage content: values sum to '
+                      f'{float(sum(out.values()))}, mean loss gap over the explained data {float(target)}'})
     # outputs with DIFFERENT label sets (sparse probability dicts): the baseline is the mean prediction over the union of the labels,
     # a label missing from an output counting as 0
     def sparse_model(x):
